@@ -222,6 +222,14 @@ def check_filter(rep, rule, project, qual):
     run = Run(project, qual, kind="dropped")
     fi = run.fi
     D = run.cost_matrix()
+    # anything computed per row BEFORE the finite-death filter and used with the rows that survive it is misaligned
+    for ev in run.interp.log:
+        if ev["kind"] == "shape-error" and "sub" in str(ev.get("message")):
+            rep.refuted(rule, fi, ev["node"],
+                        f"when some rows are dropped by the finite-death filter: {ev['message']} — a per-point quantity "
+                        f"computed before the filter is paired with the rows that survive it (numpy silently truncates or "
+                        f"cycles), so points get other points' values",
+                        construct=f"{qual}: per-point values computed before the row filter")
     spaces = {}
     for s in D.stores:
         v = s["val"]
